@@ -7,13 +7,13 @@ CHECK_DEADLOCK FALSE
 CONSTANTS
   U16MAX = 65535
   PROFILE = "debug"
-  ROWCAP = 50
-  BLOCKCAP = 100
+  ROWCAP = 2
+  BLOCKCAP = 4
   MAXW = 3
-  MAXH = 3
+  MAXH = 2
   DEPTH = 1
-  OOB = TRUE
+  OOB = FALSE
   REORIENT = FALSE
-  BIGSET = TRUE
-  SAMPLE = 53
-  STREAMLEN = 0
+  BIGSET = FALSE
+  SAMPLE = 37
+  STREAMLEN = 4
